@@ -7,7 +7,7 @@ git apply "$P" || { echo "patch does not apply"; exit 2; }
 cd /verif
 for id in "$@"; do
   echo "=== $id with $(basename $(dirname $P)) applied"
-  ./check $id quick 2>&1 | grep -E "^VIOLATION|^ +class=|^C[0-9]+ |HARNESS|KNOWN" | cut -c1-300 | head -12
+  S4SIM_NO_EVIDENCE=1 ./check $id quick 2>&1 | grep -E "^VIOLATION|^ +class=|^C[0-9]+ |HARNESS|KNOWN" | cut -c1-300 | head -12
   echo "exit=${PIPESTATUS[0]}"
 done
 git -C /repo checkout -- .
